@@ -476,11 +476,11 @@ Definition op_create (sch : schema) (oc : octx) (stev : st_ev) (s : name) (i : i
   | Some _ =>
       if negb (nonempty i) then Err EOther                      (* blank id *)
       else if present sch st s i then Err EOther                (* already exists *)
+      else if present sch st (root_of sch s) i then Err EOther  (* the id is taken by an entity of the parent store *)
       else if negb (key_ok i) then Err EOther                   (* CreateBucket refuses the name *)
       else
         let r := root_of sch s in
-        let e0 := match get_ent st r i with Some e => e | None => ent_empty end in
-        let st1 := set_ent st r i (persist sch s true sys fv sv None e0) in
+        let st1 := set_ent st r i (persist sch s true sys fv sv None ent_empty) in
         (* index errors are latched in the bucket's error holder and only returned at the very end
            (return bucket.Err); a pre-commit veto returns first *)
         do evs1 <- fire_cu sch oc evs s Created i;
@@ -667,6 +667,21 @@ Section Delete.
             Ok (st3, evs2)
     end.
 End Delete.
+
+(* ---------------------------------------------------------------- reads (C15) *)
+(* QueryIds / IterateIds with the filter "true": a plain child store shows only entities with child
+   data, an extended one every parent entity (query_cursor.go: IsChildStore && !IsEntityPresent && !IsExtended) *)
+Definition query_ids (sch : schema) (st : state) (s : name) : list id :=
+  filter (fun i => if is_child sch s && negb (is_ext sch s) then present sch st s i else true)
+         (ids_of st (root_of sch s)).
+
+(* IterateValidIds: extended stores additionally skip entities without extension data *)
+Definition valid_ids (sch : schema) (st : state) (s : name) : list id :=
+  filter (fun i => if is_child sch s then present sch st s i else true) (ids_of st (root_of sch s)).
+
+(* FindById finds the entity *)
+Definition find_ids (sch : schema) (st : state) (s : name) : list id :=
+  filter (fun i => loadable sch st s i) (ids_of st (root_of sch s)).
 
 (* ---------------------------------------------------------------- transactions *)
 Inductive op :=
